@@ -79,6 +79,29 @@ fn handle(req: &Json) -> Json {
         "canon_eq_ab": ca == cb,
         "render_a": {"err": err.clone(), "type": full.clone(), "inferred": inferred},
     });
+    // lifetime utilities
+    let lt_name = req.get("lt_name").and_then(|v| v.as_str()).unwrap_or("q").to_owned();
+    let mut lt_map: indexmap::IndexMap<String, String> = indexmap::IndexMap::new();
+    if let Some(l) = req.get("lt_map").and_then(|v| v.as_array()) {
+        for e in l {
+            if let (Some(k), Some(v)) = (e.get(0).and_then(|x| x.as_str()), e.get(1).and_then(|x| x.as_str())) {
+                // first entry wins, like the association list of the model
+                lt_map.entry(k.to_owned()).or_insert_with(|| v.to_owned());
+            }
+        }
+    }
+    let mut si = a.clone();
+    si.set_implicit_lifetimes(lt_name);
+    let mut rn = a.clone();
+    rn.rename_lifetime_parameters(&lt_map);
+    out["has_implicit_a"] = json!(a.has_implicit_lifetime_parameters());
+    out["set_implicit_a"] = tj(&si);
+    out["has_implicit_after"] = json!(si.has_implicit_lifetime_parameters());
+    out["canon_set_implicit_a"] = tj(si.canonicalize().inner());
+    out["rename_a"] = tj(&rn);
+    out["canon_rename_a"] = tj(rn.canonicalize().inner());
+    out["lifetimes_a"] = json!(a.lifetime_parameters().iter().map(|l| serde_json::to_value(l).unwrap()).collect::<Vec<_>>());
+    out["named_lifetimes_a"] = json!(a.named_lifetime_parameters().into_iter().collect::<Vec<_>>());
     if wf {
         // What the Rust grammar (syn) reads back from the rendered source.
         out["reparse_a"] = reparse::reparse(&err).unwrap_or(Json::Null);
